@@ -83,6 +83,8 @@ type Options struct {
 	PortGaps   bool     // sometimes leave a hole in a processor's port numbering (an unbonded port)
 	LitStyles  bool     // draw a notation (decimal, 0u, 0d, 0x, 0b) per immediate
 	ExtraOps   []string // further two-register ALU opcodes (printed "op rA, rB"); Eval does not know them
+	// PassThrough: an external input may also be bonded straight to an external output (beside its processor consumers)
+	PassThrough bool
 }
 
 func DefaultOptions() Options {
@@ -225,7 +227,7 @@ func Generate(t *simrt.Tape, o Options) *Net {
 			l.Src.Idx = remap
 			remap++
 		}
-		if len(l.Dst) == 0 || (l.Src.CP >= 0 && t.Draw(4) == 1 && len(l.Dst) < o.MaxFanout) {
+		if len(l.Dst) == 0 || ((l.Src.CP >= 0 || o.PassThrough) && t.Draw(4) == 1 && len(l.Dst) < o.MaxFanout) {
 			l.Dst = append(l.Dst, Endpoint{-1, n.ExtOut})
 			n.ExtOut++
 		}
